@@ -170,6 +170,25 @@ def run_propagate(case):
             return float(np.max(np.abs((a[idx] if idx is not None else a) - b)))
 
         sc = 1.0
+        if (tb, pb) in ((1, 1), (3, 2)):
+            # population independence: replace ONE walker by a hostile one (next to a node of the trial: huge force bias, tiny overlap);
+            # what the step does to every other walker (same fields, same weights, same incoming shift) must not change at all
+            j_h = nw - 1
+            hostile = _near_node_walker(trial, wd, wl_noise, j_h, cont)
+            if hostile is not None:
+                saved = wl_noise
+                wl_noise = hostile
+                try:
+                    resh = run(np.arange(nw))
+                finally:
+                    wl_noise = saved
+                keep = np.arange(nw) != j_h
+                dw = max(wdiff([x[keep] for x in res[1]] if isinstance(res[1], list) else res[1][keep],
+                               [x[keep] for x in resh[1]] if isinstance(resh[1], list) else resh[1][keep]), 0.0)
+                dwt = float(np.max(np.abs(res[2][keep] - resh[2][keep])))
+                dov = float(np.max(np.abs(res[3][keep] - resh[3][keep]) / np.abs(res[3][keep])))
+                events.append(judge("propagate/other-walkers-independent-of-a-hostile-walker", max(dw, dwt, dov), 1e-11, key + "/population-independence",
+                                    parts={"walkers": dw, "weights": dwt, "overlaps": dov}, trial_batch=tb, prop_batch=pb))
         events.append(judge("propagate/batch-independent-trotprop", wdiff(base[0], res[0]), 1e-11, key + "/batch/trotprop", trial_batch=tb, prop_batch=pb))
         events.append(judge("propagate/batch-independent-walkers", wdiff(base[1], res[1]), 1e-11, key + "/batch/walkers", trial_batch=tb, prop_batch=pb))
         events.append(judge("propagate/batch-independent-weights", float(np.max(np.abs(base[2] - res[2]))), 1e-10, key + "/batch/weights", trial_batch=tb, prop_batch=pb))
@@ -180,6 +199,46 @@ def run_propagate(case):
         events.append(judge("propagate/shift-symmetric-in-weights", abs(res[4] - resp[4]), 1e-9 * max(1.0, abs(res[4])), key + "/perm/shift"))
     return {"events": events, "nontrivial": True, "sample": {"kind": kind, "container": cont, "weights_out": base[2].tolist(), "shift": base[4]},
             "counters": {"propagate_cases": 1}}
+
+
+def _near_node_walker(trial, wd, walkers, j, cont):
+    """copy of the population in which walker j sits next to a zero of the trial overlap (secant search along a complex line in its up block)"""
+    import jax.numpy as jnp
+
+    if cont == "u":
+        A = np.asarray(walkers[0][j])
+        others = np.asarray(walkers[1][j])
+        f = lambda t: complex(trial.calc_overlap([jnp.array((A + t * B)[None]), jnp.array(others[None])], wd)[0])
+    else:
+        A = np.asarray(walkers[j])
+        f = lambda t: complex(trial.calc_overlap(jnp.array((A + t * B)[None]), wd)[0])
+    rs = np.random.default_rng(A.size + j)
+    B = rs.normal(size=A.shape) + 1j * rs.normal(size=A.shape)
+    tb_save = trial.n_batch
+    try:
+        object.__setattr__(trial, "n_batch", 1)
+        t0, t1 = 0.0 + 0.0j, 0.3 + 0.2j
+        f0, f1 = f(t0), f(t1)
+        for _ in range(60):
+            if f1 == f0:
+                break
+            t0, t1, f0 = t1, t1 - f1 * (t1 - t0) / (f1 - f0), f1
+            f1 = f(t1)
+            if abs(f1) < 1e-13 * max(1.0, abs(f(0.0))):
+                break
+        ref = abs(f(0.0))
+        if not np.isfinite(abs(t1)) or abs(f1) > 1e-6 * ref:
+            return None
+        W = A + (t1 + 1e-5) * B
+    finally:
+        object.__setattr__(trial, "n_batch", tb_save)
+    if cont == "u":
+        up = np.array(walkers[0])
+        up[j] = W
+        return [jnp.array(up), walkers[1]]
+    w = np.array(walkers)
+    w[j] = W
+    return jnp.array(w)
 
 
 def _closed_shell_pair(case, rng, dt, nw, n_batch=1):
